@@ -784,6 +784,30 @@ def obligations(body, ia=None):
     return out
 
 
+def obligations_in_context(facts, body, keep=None):
+    """obligations of `body` itself, decided on the body with its private helpers analysed in place (rules/inline.py):
+    facts established by a helper (a validation returning Err, an assertion) refine the caller's state. Obligations
+    located in the inlined blocks are not reported here - they are reported when the helper's own body is analysed."""
+    from . import inline
+    nb = inline.inlined(facts, body, keep)
+    ia = Intervals(nb, facts).run()
+    if nb is body:
+        return obligations(body, ia)
+    merged = {}
+    order = []
+    for o in obligations(nb, ia):
+        blk = nb.blocks[o['bb']]
+        if blk.get('inl'):
+            continue
+        k = (o['kind'], o['ops'], blk.get('clone_of', o['bb']))
+        if k in merged:
+            merged[k]['discharged'] = merged[k]['discharged'] and o['discharged']
+        else:
+            merged[k] = o
+            order.append(k)
+    return [merged[k] for k in order]
+
+
 def _obligations(body, ia=None):
     names = canon_names(body)
     out = []
